@@ -464,7 +464,7 @@ pub fn run(run: &mut Run) {
         assert_eq!(corr8(0), 6);
         assert_eq!(corr8(200), 0);
     });
-    let per_type = if cfg!(miri) { 1 } else { run.tier.n(400, 15_000) };
+    let per_type = if cfg!(miri) { 1 } else { run.tier.n(4000, 150_000) };
     let calls = if cfg!(miri) { 6 } else { 40 };
     run.sub("random", per_type * 24, move |l, idx, rng| {
         let name = ARITH_NAMES[(idx % 24) as usize];
